@@ -409,3 +409,64 @@ func (in *Exec) modelIndex(s, sub []*Term) *Term {
 }
 
 var _ = strings.Contains
+
+// ---------------- sync.Map (single schedule): an ordered engine map per receiver ----------------
+
+var anyType = types.NewInterfaceType(nil, nil).Complete()
+
+func (in *Exec) syncMap(recv value) *Map {
+	key := fmt.Sprintf("syncmap:%p", recv.(*value))
+	if m, ok := in.ghost[key]; ok {
+		return m.(*Map)
+	}
+	m := &Map{}
+	in.ghost[key] = m
+	return m
+}
+
+func init() {
+	reg("(*sync.Map).Load", func(in *Exec, _ *frame, a []value) value {
+		m := in.syncMap(a[0])
+		if e := in.mapFind(m, anyType, a[1]); e != nil {
+			return tuple{e.v, in.tb.True}
+		}
+		return tuple{iface{}, in.tb.False}
+	})
+	reg("(*sync.Map).Store", func(in *Exec, _ *frame, a []value) value {
+		in.mapInsert(in.syncMap(a[0]), anyType, a[1], a[2])
+		return nil
+	})
+	reg("(*sync.Map).LoadOrStore", func(in *Exec, _ *frame, a []value) value {
+		m := in.syncMap(a[0])
+		if e := in.mapFind(m, anyType, a[1]); e != nil {
+			return tuple{e.v, in.tb.True}
+		}
+		in.mapInsert(m, anyType, a[1], a[2])
+		return tuple{a[2], in.tb.False}
+	})
+	reg("(*sync.Map).Delete", func(in *Exec, _ *frame, a []value) value {
+		in.mapDelete(in.syncMap(a[0]), anyType, a[1])
+		return nil
+	})
+	reg("(*sync.Map).LoadAndDelete", func(in *Exec, _ *frame, a []value) value {
+		m := in.syncMap(a[0])
+		if e := in.mapFind(m, anyType, a[1]); e != nil {
+			e.deleted = true
+			return tuple{e.v, in.tb.True}
+		}
+		return tuple{iface{}, in.tb.False}
+	})
+	reg("(*sync.Map).Range", func(in *Exec, fr *frame, a []value) value {
+		m := in.syncMap(a[0])
+		for _, e := range append([]*mapEnt(nil), m.ents...) {
+			if e.deleted {
+				continue
+			}
+			r := in.call(fr, 0, a[1], []value{e.k, e.v})
+			if !in.branch(r.(*Term)) {
+				break
+			}
+		}
+		return nil
+	})
+}
